@@ -114,6 +114,10 @@ func decode(in hv.Val) (capacity int, mode int, ops []op, ok bool) {
 			if len(e) != 1 {
 				return
 			}
+		case 10: // only in pooled-generations mode (mode bit3): take a new pipe from the buffer pool
+			if len(e) != 1 || m&8 == 0 {
+				return
+			}
 		default:
 			return
 		}
@@ -194,6 +198,12 @@ func (r *runner) do(o op) (out hv.Val) {
 	case 9:
 		a, b := pipe.VerifPeek(r.p)
 		return hv.L{hv.I(9), hv.I(a), hv.I(b)}
+	case 10:
+		// the old pipe is abandoned; the next one runs on whatever buffer the pool hands out
+		r.p = pipe.NewPipeFromBufferPool(r.pool)
+		r.calls = 0
+		r.buffered = 0
+		return hv.L{}
 	}
 	return hv.Err(0)
 }
@@ -205,7 +215,7 @@ func impl(in hv.Val) hv.Val {
 	}
 	r := &runner{}
 	r.pool = &sync.Pool{New: func() interface{} { return pipe.NewFixedBuffer(make([]byte, capacity)) }}
-	if mode&2 != 0 {
+	if mode&2 != 0 || mode&8 != 0 {
 		r.p = pipe.NewPipeFromBufferPool(r.pool)
 	} else {
 		r.p = pipe.NewPipeWithSize(uint32(capacity))
@@ -523,6 +533,9 @@ func gen(r *hv.Rng, i int, tier string) (string, hv.Val) {
 	if r.Chance(1, 3) {
 		mode = 2
 	}
+	if i%10 == 5 || i%10 == 8 {
+		return genPool(r)
+	}
 	if i%10 == 3 {
 		// concurrent transfer: writer goroutine vs really blocking reader
 		for j := rg(r, 0, 12); j > 0; j-- {
@@ -727,6 +740,83 @@ func gen(r *hv.Rng, i int, tier string) (string, hv.Val) {
 		}
 		return class, b.val(mode)
 	}
+}
+
+// genPool: 2..5 generations of pipes sharing one buffer pool.  A generation writes, reads only PART of what is
+// buffered (so that the read index is > 0 when the buffer goes back), optionally closes/breaks, usually Releases,
+// and the next generation starts on the recycled buffer with writes that fit without sliding, Peeks and reads.
+func genPool(r *hv.Rng) (string, hv.Val) {
+	capacity := rg(r, 1, 64)
+	if r.Chance(1, 4) {
+		capacity = rg(r, 2, 8)
+	}
+	ops := hv.L{}
+	wr := func(n int) { ops = append(ops, hv.L{hv.I(1), hv.B(r.Bytes(n))}) }
+	rd := func(n int) { ops = append(ops, hv.L{hv.I(2), hv.I(n)}) }
+	simple := func(t int) { ops = append(ops, hv.L{hv.I(t)}) }
+	gens := rg(r, 2, 5)
+	class := "pool-reuse"
+	for g := 0; g < gens; g++ {
+		pending := 0
+		closed := false
+		if r.Chance(1, 2) {
+			simple(9)
+		}
+		for k := rg(r, 1, 4); k > 0; k-- {
+			switch r.Intn(6) {
+			case 0, 1, 2: // a write that fits (no slide), sometimes to the brim, sometimes too large
+				n := rg(r, 1, capacity-pending+1)
+				if r.Chance(1, 8) {
+					n = capacity - pending + rg(r, 0, 2)
+				}
+				if n < 0 {
+					n = 0
+				}
+				wr(n)
+				if n > capacity-pending {
+					n = capacity - pending
+				}
+				pending += n
+			case 3, 4: // partial read: leaves the read index in the middle
+				if pending > 1 {
+					n := rg(r, 1, pending-1)
+					rd(n)
+					pending -= n
+				} else if pending == 1 && r.Chance(1, 2) {
+					rd(1)
+					pending = 0
+				}
+			default:
+				simple(9)
+			}
+		}
+		if r.Chance(1, 3) {
+			ops = append(ops, hv.L{hv.I([]int{3, 4, 8}[r.Intn(3)]), hv.I(rg(r, 1, 9))})
+			closed = true
+		}
+		if g == gens-1 || r.Chance(1, 3) { // read everything back on the last (and some other) generations
+			if pending > 0 || closed {
+				rd(capacity + 1)
+			}
+			if pending > 0 && r.Chance(1, 2) {
+				rd(1)
+			}
+		}
+		if g < gens-1 {
+			if r.Chance(5, 6) {
+				simple(6) // Release: Reset + back to the pool
+			} else {
+				class = "pool-reuse-norelease"
+			}
+			if r.Chance(1, 10) {
+				simple(6) // double release: panics, must not poison the pool
+			}
+			simple(10)
+		} else if r.Chance(1, 2) {
+			simple(6)
+		}
+	}
+	return class, hv.L{hv.I(capacity), hv.I(8), ops}
 }
 
 func main() {
